@@ -31,10 +31,11 @@ struct World {
     fault_at: u32,
     fresh: u8,
     bad_read: bool,
+    order: Vec<u8>,
 }
 
 thread_local! {
-    static W: RefCell<World> = RefCell::new(World { drops: [0; 256], created: [false; 256], ev: [0; 6], fault_kind: 0, fault_at: 0, fresh: FRESH0, bad_read: false });
+    static W: RefCell<World> = RefCell::new(World { drops: [0; 256], created: [false; 256], ev: [0; 6], fault_kind: 0, fault_at: 0, fresh: FRESH0, bad_read: false, order: Vec::new() });
 }
 
 fn fault(kind: usize) -> bool {
@@ -62,7 +63,11 @@ fn mk(id: u8) -> FTok {
 pub struct FTok(pub u8);
 impl Drop for FTok {
     fn drop(&mut self) {
-        W.with(|w| w.borrow_mut().drops[self.0 as usize] += 1);
+        W.with(|w| {
+            let mut w = w.borrow_mut();
+            w.drops[self.0 as usize] += 1;
+            w.order.push(self.0);
+        });
         if fault(F_DROP) {
             panic!("injected destructor panic");
         }
@@ -133,6 +138,7 @@ pub struct Outcome {
     pub drops_final: Vec<(u8, u32)>,
     pub violations: Vec<String>,
     pub ret: i64,
+    pub order: Vec<u8>,
 }
 
 fn build<const N: usize>(start: usize, size: usize, base: u8) -> CircularBuffer<N, FTok> {
@@ -164,6 +170,7 @@ fn reset(kind: usize, at: u32) {
         w.fault_at = at;
         w.fresh = FRESH0;
         w.bad_read = false;
+        w.order.clear();
     });
 }
 fn disarm() {
@@ -199,6 +206,7 @@ fn judge<const N: usize>(c: &Case, out: &mut Outcome, b: Option<CircularBuffer<N
         }
     }
     out.drops_final = snapshot();
+    out.order = W.with(|w| w.borrow().order.clone());
     W.with(|w| {
         let w = w.borrow();
         for i in 0..256usize {
@@ -447,10 +455,11 @@ pub fn line(c: &Case, o: &Outcome) -> String {
     let ids: Vec<String> = o.ids.iter().map(|x| x.to_string()).collect();
     let d1: Vec<String> = o.drops_after_op.iter().map(|(i, n)| format!("{}:{}", i, n)).collect();
     let d2: Vec<String> = o.drops_final.iter().map(|(i, n)| format!("{}:{}", i, n)).collect();
+    let ord: Vec<String> = o.order.iter().take(64).map(|x| x.to_string()).collect();
     format!(
-        "{} N={} M={} start={} size={} a={} b={} start2={} size2={} fault={}@{} -> panicked={} len={} ids=[{}] drops=[{}] final=[{}]",
+        "{} N={} M={} start={} size={} a={} b={} start2={} size2={} fault={}@{} -> panicked={} len={} ids=[{}] drops=[{}] final=[{}] order=[{}]",
         c.op, c.n, c.m, c.start, c.size, c.a, c.b, c.start2, c.size2, c.kind, c.at, o.panicked as u8, o.len,
-        ids.join(","), d1.join(","), d2.join(",")
+        ids.join(","), d1.join(","), d2.join(","), ord.join(",")
     )
 }
 
